@@ -7,9 +7,95 @@ package cc
 
 // Machine-checked contracts (comment-only; read by /verif/govc, never compiled into a normal build).
 //
+// Property C09: decoding TWCC / RFC 8888 feedback against the send history.
+//
+//@ # the send history is only read while feedback is decoded: a lookup is a function of the history object and the key
+//@ func (*feedbackHistory).get
+//@   functional
+//@   modifies nothing
+//@
+//@ # sum of the first n arrival deltas (given in microseconds) as a time.Duration: the offset of the n-th received packet from the chunk's reference time
+//@ def rec deltaSum(d []*rtcp.RecvDelta, n int) time.Duration := ite(n <= 0, time.Duration(0), deltaSum(d, n - 1) + time.Duration(d[n - 1].Delta) * time.Microsecond)
+//@
+//@ func (*FeedbackAdapter).unpackRunLengthChunk
+//@   requires in: chunk != nil && f.history != nil && (forall k int :: 0 <= k && k < len(deltas) ==> deltas[k] != nil)
+//@   modifies nothing
+//@   ensures too_few_deltas_rejected: (err != nil) <==> (chunk.PacketStatusSymbol != 0 && len(deltas) < int(chunk.RunLength))
+//@   ensures one_per_status: len(acks) == int(chunk.RunLength)
+//@   ensures deltas_consumed: err == nil ==> consumedDeltas == ite(chunk.PacketStatusSymbol != 0, int(chunk.RunLength), 0) && 0 <= consumedDeltas && consumedDeltas <= len(deltas)
+//@   ensures attribution: err == nil ==> forall k int :: 0 <= k && k < int(chunk.RunLength) && res1(f.history.get(mkstruct("feedbackHistoryKey", 0, start + uint16(k)))) ==>
+//@           acks[k].SequenceNumber == res0(f.history.get(mkstruct("feedbackHistoryKey", 0, start + uint16(k)))).SequenceNumber
+//@        && acks[k].Size == res0(f.history.get(mkstruct("feedbackHistoryKey", 0, start + uint16(k)))).Size
+//@        && acks[k].Departure == res0(f.history.get(mkstruct("feedbackHistoryKey", 0, start + uint16(k)))).Departure
+//@        && acks[k].SSRC == res0(f.history.get(mkstruct("feedbackHistoryKey", 0, start + uint16(k)))).SSRC
+//@   ensures lost_keep_no_arrival: err == nil && chunk.PacketStatusSymbol == 0 ==> forall k int :: 0 <= k && k < int(chunk.RunLength)
+//@        && res1(f.history.get(mkstruct("feedbackHistoryKey", 0, start + uint16(k)))) ==> acks[k].Arrival == res0(f.history.get(mkstruct("feedbackHistoryKey", 0, start + uint16(k)))).Arrival
+//@   ensures arrival_independent_of_history: err == nil && chunk.PacketStatusSymbol != 0 ==> forall k int :: 0 <= k && k < int(chunk.RunLength)
+//@        && res1(f.history.get(mkstruct("feedbackHistoryKey", 0, start + uint16(k)))) ==> acks[k].Arrival == refTime.Add(deltaSum(deltas, k + 1))
+//@   ensures next_reference: err == nil ==> nextRef == ite(chunk.PacketStatusSymbol != 0, refTime.Add(deltaSum(deltas, int(chunk.RunLength))), refTime)
+//@   loop 1 invariant progress: resultIndex == int(i - start) && 0 <= resultIndex && resultIndex <= int(chunk.RunLength) && len(result) == int(chunk.RunLength) && fresh(result)
+//@        && deltaIndex == ite(chunk.PacketStatusSymbol != 0, resultIndex, 0) && deltaIndex <= len(deltas)
+//@        && refTime == old(refTime).Add(deltaSum(deltas, deltaIndex))
+//@   loop 1 invariant attribution: forall k int :: 0 <= k && k < resultIndex && res1(f.history.get(mkstruct("feedbackHistoryKey", 0, start + uint16(k)))) ==>
+//@           result[k].SequenceNumber == res0(f.history.get(mkstruct("feedbackHistoryKey", 0, start + uint16(k)))).SequenceNumber
+//@        && result[k].Size == res0(f.history.get(mkstruct("feedbackHistoryKey", 0, start + uint16(k)))).Size
+//@        && result[k].Departure == res0(f.history.get(mkstruct("feedbackHistoryKey", 0, start + uint16(k)))).Departure
+//@        && result[k].SSRC == res0(f.history.get(mkstruct("feedbackHistoryKey", 0, start + uint16(k)))).SSRC
+//@        && result[k].Arrival == ite(chunk.PacketStatusSymbol != 0, old(refTime).Add(deltaSum(deltas, k + 1)),
+//@               res0(f.history.get(mkstruct("feedbackHistoryKey", 0, start + uint16(k)))).Arrival)
+//@   loop 1 decreases start + chunk.RunLength - i
+//@
+//@ # number of "received" symbols among the first n status symbols: the number of deltas that belong to them
+//@ def rec recvCount(s []uint16, n int) int := ite(n <= 0, 0, recvCount(s, n - 1) + ite(s[n - 1] != 0, 1, 0))
+//@
+//@ func (*FeedbackAdapter).unpackStatusVectorChunk
+//@   requires in: chunk != nil && f.history != nil && (forall k int :: 0 <= k && k < len(deltas) ==> deltas[k] != nil)
+//@   modifies nothing
+//@   ensures one_per_status: len(acks) == len(chunk.SymbolList)
+//@   ensures deltas_consumed: err == nil ==> consumedDeltas == recvCount(chunk.SymbolList, len(chunk.SymbolList)) && 0 <= consumedDeltas && consumedDeltas <= len(deltas)
+//@   ensures too_few_deltas_rejected: err != nil ==> consumedDeltas == len(deltas)
+//@   ensures attribution: err == nil ==> forall k int :: 0 <= k && k < len(chunk.SymbolList) && res1(f.history.get(mkstruct("feedbackHistoryKey", 0, start + uint16(k)))) ==>
+//@           acks[k].SequenceNumber == res0(f.history.get(mkstruct("feedbackHistoryKey", 0, start + uint16(k)))).SequenceNumber
+//@        && acks[k].Size == res0(f.history.get(mkstruct("feedbackHistoryKey", 0, start + uint16(k)))).Size
+//@        && acks[k].Departure == res0(f.history.get(mkstruct("feedbackHistoryKey", 0, start + uint16(k)))).Departure
+//@        && acks[k].SSRC == res0(f.history.get(mkstruct("feedbackHistoryKey", 0, start + uint16(k)))).SSRC
+//@        && acks[k].Arrival == ite(chunk.SymbolList[k] != 0, refTime.Add(deltaSum(deltas, recvCount(chunk.SymbolList, k + 1))), res0(f.history.get(mkstruct("feedbackHistoryKey", 0, start + uint16(k)))).Arrival)
+//@   ensures next_reference: err == nil ==> nextRef == refTime.Add(deltaSum(deltas, recvCount(chunk.SymbolList, len(chunk.SymbolList))))
+//@   loop 1 invariant progress: resultIndex == rangeindex + 1 && len(result) == len(chunk.SymbolList) && fresh(result)
+//@        && deltaIndex == recvCount(chunk.SymbolList, rangeindex + 1) && 0 <= deltaIndex && deltaIndex <= len(deltas) && deltaIndex <= resultIndex
+//@        && refTime == old(refTime).Add(deltaSum(deltas, deltaIndex))
+//@   loop 1 invariant attribution: forall k int :: 0 <= k && k <= rangeindex && res1(f.history.get(mkstruct("feedbackHistoryKey", 0, start + uint16(k)))) ==>
+//@           result[k].SequenceNumber == res0(f.history.get(mkstruct("feedbackHistoryKey", 0, start + uint16(k)))).SequenceNumber
+//@        && result[k].Size == res0(f.history.get(mkstruct("feedbackHistoryKey", 0, start + uint16(k)))).Size
+//@        && result[k].Departure == res0(f.history.get(mkstruct("feedbackHistoryKey", 0, start + uint16(k)))).Departure
+//@        && result[k].SSRC == res0(f.history.get(mkstruct("feedbackHistoryKey", 0, start + uint16(k)))).SSRC
+//@   loop 1 invariant arrival: forall k int :: 0 <= k && k <= rangeindex && res1(f.history.get(mkstruct("feedbackHistoryKey", 0, start + uint16(k)))) ==>
+//@           result[k].Arrival == ite(chunk.SymbolList[k] != 0, old(refTime).Add(deltaSum(deltas, recvCount(chunk.SymbolList, k + 1))), res0(f.history.get(mkstruct("feedbackHistoryKey", 0, start + uint16(k)))).Arrival)
+//@   loop 1 decreases len(chunk.SymbolList) - rangeindex
+//@
 // Frame-only contracts (no postcondition is assumed of these functions by their callers beyond "returns"):
+//@ # the j-th acknowledgement of a TWCC feedback is about transport sequence number base+j, whatever the chunk layout,
+//@ # and carries the size, departure and SSRC recorded for that number when it was sent
 //@ func (*FeedbackAdapter).OnTransportCCFeedback
-//@   modifies *
+//@   requires in: feedback != nil && f.history != nil && (forall k int :: 0 <= k && k < len(feedback.RecvDeltas) ==> feedback.RecvDeltas[k] != nil)
+//@        && (forall k int :: 0 <= k && k < len(feedback.PacketChunks) ==>
+//@              (typeis(feedback.PacketChunks[k], "*rtcp.RunLengthChunk") ==> as(feedback.PacketChunks[k], "*rtcp.RunLengthChunk") != nil)
+//@           && (typeis(feedback.PacketChunks[k], "*rtcp.StatusVectorChunk") ==> as(feedback.PacketChunks[k], "*rtcp.StatusVectorChunk") != nil))
+//@   modifies f.lock
+//@   ensures attribution: result1 == nil ==> forall j int :: 0 <= j && j < len(result0) && res1(f.history.get(mkstruct("feedbackHistoryKey", 0, feedback.BaseSequenceNumber + uint16(j)))) ==>
+//@           result0[j].SequenceNumber == res0(f.history.get(mkstruct("feedbackHistoryKey", 0, feedback.BaseSequenceNumber + uint16(j)))).SequenceNumber
+//@        && result0[j].Size == res0(f.history.get(mkstruct("feedbackHistoryKey", 0, feedback.BaseSequenceNumber + uint16(j)))).Size
+//@        && result0[j].Departure == res0(f.history.get(mkstruct("feedbackHistoryKey", 0, feedback.BaseSequenceNumber + uint16(j)))).Departure
+//@        && result0[j].SSRC == res0(f.history.get(mkstruct("feedbackHistoryKey", 0, feedback.BaseSequenceNumber + uint16(j)))).SSRC
+//@   ensures error_reports_nothing: result1 != nil ==> len(result0) == 0
+//@   loop 1 invariant aligned: index == feedback.BaseSequenceNumber + uint16(len(result)) && fresh(result)
+//@        && len(recvDeltas) >= 0 && (forall k int :: 0 <= k && k < len(recvDeltas) ==> recvDeltas[k] != nil)
+//@   loop 1 invariant attribution: forall j int :: 0 <= j && j < len(result) && res1(f.history.get(mkstruct("feedbackHistoryKey", 0, feedback.BaseSequenceNumber + uint16(j)))) ==>
+//@           result[j].SequenceNumber == res0(f.history.get(mkstruct("feedbackHistoryKey", 0, feedback.BaseSequenceNumber + uint16(j)))).SequenceNumber
+//@        && result[j].Size == res0(f.history.get(mkstruct("feedbackHistoryKey", 0, feedback.BaseSequenceNumber + uint16(j)))).Size
+//@        && result[j].Departure == res0(f.history.get(mkstruct("feedbackHistoryKey", 0, feedback.BaseSequenceNumber + uint16(j)))).Departure
+//@        && result[j].SSRC == res0(f.history.get(mkstruct("feedbackHistoryKey", 0, feedback.BaseSequenceNumber + uint16(j)))).SSRC
+//@   loop 1 decreases len(feedback.PacketChunks) - rangeindex
 //@
 //@ func (*FeedbackAdapter).OnRFC8888Feedback
 //@   modifies *
